@@ -1,6 +1,7 @@
 package main
 
 import (
+	"sync/atomic"
 	"bytes"
 	"io/ioutil"
 	"net"
@@ -94,10 +95,16 @@ func init() {
 				srv = nil
 			}
 		}
+		type bgDispatch struct {
+			line string
+			done *int32
+		}
+		var bg []bgDispatch
 		scanLines(func(f []string, raw string) {
 			switch f[0] {
 			case "cfg":
 				stop()
+				bg = nil
 				ep = &gnEndpoint{}
 				e := ep
 				mux := http.NewServeMux()
@@ -180,6 +187,14 @@ func init() {
 				case <-time.After(3 * time.Second):
 					emit("dispatch-blocked")
 				}
+			case "mbg":
+				// dispatch from a goroutine of its own, as a second input connection would: it may stay parked on a full
+				// buffer (blocking mode); whether it returned is reported at the end
+				fl := new(int32)
+				bg = append(bg, bgDispatch{f[1], fl})
+				r := rt
+				go func() { r.Dispatch(unhexArg(f[1])); atomic.StoreInt32(fl, 1) }()
+				time.Sleep(2 * time.Millisecond) // keep the hand-off order of the parked callers
 			case "sleep":
 				ms, _ := strconv.Atoi(f[1])
 				time.Sleep(time.Duration(ms) * time.Millisecond)
@@ -212,6 +227,10 @@ func init() {
 					emit("post %s", strings.Join(b, ","))
 				}
 				emit("requests %d", ep.reqs)
+				for _, b := range bg {
+					emit("bg %s %d", b.line, atomic.LoadInt32(b.done))
+				}
+				bg = nil
 				ep.mu.Unlock()
 				drops := stats.Counter("dest=" + util.AddrToPath(srv.URL+"/metrics") + ".unit=Metric.action=drop.reason=queue_full").Count()
 				errs := stats.Counter("dest=" + util.AddrToPath(srv.URL+"/metrics") + ".unit=Err.type=flush").Count()
